@@ -217,10 +217,16 @@ def replay(source, filename, universe, client_programs, steps, pool_args=None, t
     gates = [threading.Event() for _ in range(U.G)]
     ns = {}
     exec(compile(SCENARIO_SRC, "<scenario>", "exec"), ns)
+    import functools
+
     tasks = [ns["make_task"](i, U.task_kinds[i], rec, gates, RES, EXC) for i in range(U.M)]
+    for i in range(U.M):
+        if getattr(U, "task_noname", [False] * U.M)[i]:
+            tasks[i] = functools.partial(tasks[i])  # a callable without __name__
     cbs = [ns["make_cb"](j, U.cb_kinds[j], rec) for j in range(U.R)]
     for i, t in enumerate(tasks):
-        t.__name__ = "task{0}".format(i)
+        if not isinstance(t, functools.partial):
+            t.__name__ = "task{0}".format(i)
     env = {"TIMEOUT": "timeout", "TMO": timeout_literal, "NOWAIT": 0.0, "stop_returned": False, "pool_serving": False,
            "shutdown_request": False, "socket_closed": False}
     pool = None
